@@ -185,6 +185,22 @@ func (m *counterModel) closure(fn *ssa.Function) []*ssa.Function {
 	return out
 }
 
+// predCmpsExact: predCmps, and whether the comparisons are the whole predicate (true exactly when all hold): every
+// branch of the function contributed one comparison and every other way to the result is a constant false.
+func predCmpsExact(fn *ssa.Function) ([]Cmp, bool) {
+	cmps := predCmps(fn)
+	if len(cmps) == 0 {
+		return nil, false
+	}
+	ifs := 0
+	allInstrs(fn, func(in ssa.Instruction) {
+		if _, ok := in.(*ssa.If); ok {
+			ifs++
+		}
+	})
+	return cmps, ifs == len(cmps)-1
+}
+
 // predCmps: comparisons that hold whenever the bool-returning function returns true.
 func predCmps(fn *ssa.Function) []Cmp {
 	if fn == nil || fn.Blocks == nil {
@@ -437,6 +453,7 @@ func (m *counterModel) analyse(fn *ssa.Function, entry ival) (ival, string) {
 		}
 		return s
 	}
+	var refineCmp func(cm Cmp, s ival) ival
 	refine := func(iff *ssa.If, succ int, s ival) ival {
 		cm, ok := edgeCmp(iff, succ)
 		if !ok {
@@ -446,9 +463,32 @@ func (m *counterModel) analyse(fn *ssa.Function, entry ival) (ival, string) {
 				if cal := staticCallee(&call.Call); cal != nil && cal.Name() == "IsEmpty" && len(call.Call.Args) > 0 && m.isBufRecv(call.Call.Args[0]) && f.Truth {
 					s.hi = min(s.hi, -1)
 				}
+				// a predicate method of the counter itself (`for c.isFull() {…}`): its comparisons hold on the true
+				// edge; on the false edge one of them fails (only when they are exactly the predicate)
+				if h := m.recvHelper(call, fn); h != nil {
+					cmps, exact := predCmpsExact(h)
+					if f.Truth {
+						for _, hc := range cmps {
+							s = refineCmp(hc, s)
+						}
+					} else if exact && len(cmps) > 0 {
+						r := ival{bot: true}
+						for _, hc := range cmps {
+							if op := negOp(hc.Op); op != token.ILLEGAL {
+								r = r.join(refineCmp(Cmp{hc.X, hc.Y, op}, s))
+							} else {
+								r = r.join(s)
+							}
+						}
+						s = r
+					}
+				}
 			}
 			return s
 		}
+		return refineCmp(cm, s)
+	}
+	refineCmp = func(cm Cmp, s ival) ival {
 		x, y, op := cm.X, cm.Y, cm.Op
 		if !m.isLenOfBuf(x) && m.isLenOfBuf(y) {
 			x, y, op = y, x, flipOp(op)
@@ -570,6 +610,9 @@ func runC19(c *Ctx) {
 		}
 	})
 	ruleCounterExtras(c, m, ctor)
+	ruleCounterPass(c, m)
+	rulePointerReceivers(c, "distinct", "Counter")
+	ruleSizeGuard(c, "mapset")
 	c.judge(ctorOK, "R-BUF-BOUND", "distinct.NewCounter:establishes", ctor.Pos(), "buffer starts as a fresh empty set: |buf| − cap ≤ −1 for cap ≥ 1", "constructor does not start with a fresh empty buffer")
 	for _, fn := range P.PkgFuncs("distinct") {
 		allInstrs(fn, func(in ssa.Instruction) {
